@@ -587,6 +587,12 @@ func c03Receiver(rc *RC) {
 	if ch.Chance("workload", 2, 3) {
 		offered = append(offered, observe(rc, twoStep, &mlog))
 	}
+	if ch.Chance("workload", 1, 2) {
+		// a mechanism of the application's own, named like a channel-binding variant (it works like PLAIN)
+		plus := sasl.Plain
+		plus.Name = "X-VERIF-PLUS"
+		offered = append(offered, observe(rc, plus, &mlog))
+	}
 	type permCall struct {
 		user, pass string
 		verdict    bool
@@ -641,7 +647,7 @@ func c03Receiver(rc *RC) {
 		done = true
 	})
 	// scripted client program
-	acts := []string{"auth-twostep-restarts", "auth-unknown-plain-payload", "auth-unknown-twostep-payload", "auth-plain-good", "auth-plain-good", "auth-plain-3parts-bad", "auth-plain-malformed", "auth-plain-eq", "auth-plain-empty", "auth-plain-badb64", "auth-plain-good-then-garbage", "auth-twostep-garbage-tail", "auth-twostep", "auth-unoffered", "auth-unknown", "response-first", "abort", "foreign", "auth-nomech"}
+	acts := []string{"auth-twostep-restarts", "auth-unknown-plain-payload", "auth-unknown-twostep-payload", "auth-plain-good", "auth-plain-good", "auth-plain-3parts-bad", "auth-plain-malformed", "auth-plain-eq", "auth-plain-empty", "auth-plain-badb64", "auth-plain-good-then-garbage", "auth-twostep-garbage-tail", "auth-twostep", "auth-unoffered", "auth-unknown", "response-first", "abort", "foreign", "auth-nomech", "auth-plus-named"}
 	var prog []string
 	for i, n := 0, ch.Range("script", 1, 4); i < n; i++ {
 		prog = append(prog, acts[ch.Int("script", len(acts))])
@@ -721,6 +727,9 @@ func c03Receiver(rc *RC) {
 				continue
 			case "auth-unoffered":
 				auth("SCRAM-SHA-1", b64([]byte("n,,n=user,r=abc")))
+			case "auth-plus-named":
+				// whether or not the receiver is configured with it (and whether or not its list names it)
+				auth("X-VERIF-PLUS", b64([]byte("\x00user\x00pass")))
 			case "auth-unknown":
 				auth("X-NOPE", "=")
 			case "auth-unknown-plain-payload":
@@ -810,6 +819,14 @@ func c03Receiver(rc *RC) {
 		named := false
 		for _, m := range offered {
 			named = named || m.Name == lastAuthMech
+		}
+		// offered means: named in the <mechanisms/> list the peer was sent
+		if lastAuthMech != "?" {
+			advertisedOnWire := false
+			for _, m := range regexp.MustCompile(`<mechanism>([^<]*)</mechanism>`).FindAllSubmatch(out.Tap, -1) {
+				advertisedOnWire = advertisedOnWire || string(m[1]) == lastAuthMech
+			}
+			rc.Check("C03.c3", "authn-under-unadvertised-mechanism", advertisedOnWire, "receiver authenticated an exchange that the peer started with <auth mechanism=%q/>; the <mechanisms/> list it had sent does not name that mechanism: %s", lastAuthMech, clip(string(out.Tap), 500))
 		}
 		rc.Check("C03.c3", "authn-under-unoffered-mechanism-name", named, "receiver authenticated an exchange that the peer started with <auth mechanism=%q/>, which was not offered (offered %d mechanisms); client sent %v", lastAuthMech, len(offered), sentLog)
 	}
